@@ -14,6 +14,7 @@ import TsdateVerif.Proofs.Changepoints
 import TsdateVerif.Proofs.FixedCp
 import TsdateVerif.Proofs.Pelt
 import TsdateVerif.Proofs.PoissonLoss
+import TsdateVerif.Proofs.LogSumReal
 
 namespace Tsdate.C26
 open Tsdate.Changepoints
@@ -34,39 +35,40 @@ theorem fixed_cp_entries (counts : List α) (epochs : Nat) :
   · intro k h
     simp [fixedChangepoints]
 
-/-- **`_fixed_changepoints` meets its specification.**  For non-negative counts with positive total and
-`epochs > 0` (`fixedPre`): the first boundary is 0, the last is `n = len(counts)`; every interior
-boundary `k` is *the last index* `i ≤ n` whose cumulative mass fraction `Z[i] = Y[i]/Y[n]` is at most
-`k/epochs` (`Z[i] ≤ k/epochs`, and `k/epochs < Z[i']` for every later index); and the boundaries are
-non-decreasing in `k`. -/
+/-- **`_fixed_changepoints` meets its specification** (cross-multiplied form, as the code computes it since
+fix 412a87a).  For non-negative counts and `epochs > 0` (`fixedPre`), with `Y = append(0, cumsum(counts))`
+and `n = len(counts)`: the first boundary is 0, the last is `n`; every interior boundary `k` is *the last
+index* `i ≤ n` with `Y[i] * epochs ≤ k * Y[n]` (and every later index is strictly above); the boundaries
+are non-decreasing in `k`.  No rounding of `k/epochs` is involved, so for integer-valued masses the exact
+ties are decided exactly also in floating point. -/
 theorem fixed_cp_spec (counts : List α) (epochs : Nat) (hpre : fixedPre counts epochs = true) :
     fixedAt (fun n : Nat => (n : α)) counts epochs 0 = 0 ∧
     fixedAt (fun n : Nat => (n : α)) counts epochs epochs = counts.length ∧
     (∀ k, 0 < k → k < epochs →
       fixedAt (fun n : Nat => (n : α)) counts epochs k ≤ counts.length ∧
-      lget (massFractions counts) (fixedAt (fun n : Nat => (n : α)) counts epochs k)
-        ≤ (k : α) / (epochs : α) ∧
+      lget (prefixFrom 0 counts) (fixedAt (fun n : Nat => (n : α)) counts epochs k) * (epochs : α)
+        ≤ (k : α) * lget (prefixFrom 0 counts) counts.length ∧
       ∀ i', fixedAt (fun n : Nat => (n : α)) counts epochs k < i' → i' ≤ counts.length →
-        (k : α) / (epochs : α) < lget (massFractions counts) i') ∧
+        (k : α) * lget (prefixFrom 0 counts) counts.length < lget (prefixFrom 0 counts) i' * (epochs : α)) ∧
     (∀ k k', k ≤ k' → k' ≤ epochs →
       fixedAt (fun n : Nat => (n : α)) counts epochs k
         ≤ fixedAt (fun n : Nat => (n : α)) counts epochs k') := by
-  obtain ⟨he, hc, hT⟩ := (fixedPre_iff counts epochs).mp hpre
+  obtain ⟨he, hc⟩ := (fixedPre_iff counts epochs).mp hpre
   have hne : epochs ≠ 0 := Nat.pos_iff_ne_zero.mp he
-  -- the raw index for any grid point
   have hraw : ∀ k, let i := fixedRaw (fun n : Nat => (n : α)) counts epochs k
-      i ≤ counts.length ∧ lget (massFractions counts) i ≤ zgrid (fun n : Nat => (n : α)) epochs k ∧
+      i ≤ counts.length ∧
+      lget (scaledSums (fun n : Nat => (n : α)) counts epochs) i ≤ target (fun n : Nat => (n : α)) counts k ∧
       ∀ i', i < i' → i' ≤ counts.length →
-        zgrid (fun n : Nat => (n : α)) epochs k < lget (massFractions counts) i' :=
-    fun k => fixedRaw_last counts _ (zgrid_nonneg epochs k he) hc hT
+        target (fun n : Nat => (n : α)) counts k < lget (scaledSums (fun n : Nat => (n : α)) counts epochs) i' :=
+    fun k => fixedRaw_last counts epochs _ (target_nonneg counts hc k) hc
   have hlast : fixedAt (fun n : Nat => (n : α)) counts epochs epochs = counts.length := by
-    have hz : zgrid (fun n : Nat => (n : α)) epochs epochs = 1 := by simp [zgrid]
-    have hcount : searchRight (massFractions counts) (1 : α) = counts.length + 1 := by
+    have hcount : searchRight (scaledSums (fun n : Nat => (n : α)) counts epochs)
+        (target (fun n : Nat => (n : α)) counts epochs) = counts.length + 1 := by
       unfold searchRight
-      rw [← massFractions_length counts, List.countP_eq_length]
+      rw [← scaledSums_length counts epochs, List.countP_eq_length]
       intro y hy
-      simpa using massFractions_le_one counts hc hT y hy
-    simp [fixedAt, fixedRaw, hne, hz, hcount]
+      simpa using scaledSums_le_last counts epochs hc y hy
+    simp [fixedAt, fixedRaw, hne, hcount]
   have hinner : ∀ k, 0 < k → k < epochs →
       fixedAt (fun n : Nat => (n : α)) counts epochs k
         = fixedRaw (fun n : Nat => (n : α)) counts epochs k := by
@@ -82,18 +84,32 @@ theorem fixed_cp_spec (counts : List α) (epochs : Nat) (hpre : fixedPre counts 
         subst this; rw [hlast]
   refine ⟨by simp [fixedAt], hlast, ?_, ?_⟩
   · intro k h0 hk
-    rw [hinner k h0 hk, ← zgrid_eq (α := α) epochs k he]
-    exact hraw k
+    rw [hinner k h0 hk]
+    obtain ⟨r1, r2, r3⟩ := hraw k
+    refine ⟨r1, ?_, ?_⟩
+    · rw [scaledSums_get counts epochs _ r1] at r2
+      exact r2
+    · intro i' hi hi'
+      have := r3 i' hi hi'
+      rw [scaledSums_get counts epochs _ hi'] at this
+      exact this
   · intro k k' hkk' hk'
     rcases Nat.eq_zero_or_pos k with h0 | h0
     · subst h0; simp [fixedAt]
     · rcases Nat.lt_or_ge k' epochs with h1 | h1
       · rw [hinner k h0 (by omega), hinner k' (by omega) h1]
         unfold fixedRaw searchRight
-        exact Nat.sub_le_sub_right (count_mono _ _ _ (zgrid_mono epochs k k' he hkk')) 1
+        exact Nat.sub_le_sub_right (count_mono _ _ _ (target_mono counts hc k k' hkk')) 1
       · have : k' = epochs := by omega
         subst this
         rw [hlast]; exact hle k hkk'
+
+/-- the same in the form of the statement: with a positive total, `Y[i] * epochs ≤ k * Y[n]` is
+`Y[i] / Y[n] ≤ k / epochs` (cumulative mass fraction at most `k/epochs`) -/
+theorem cross_multiplied_iff (y T : α) (k epochs : Nat) (hT : 0 < T) (he : 0 < epochs) :
+    y * (epochs : α) ≤ (k : α) * T ↔ y / T ≤ (k : α) / (epochs : α) := by
+  have he' : (0 : α) < (epochs : α) := by exact_mod_cast he
+  rw [div_le_div_iff₀ hT he']
 
 end Fixed
 
@@ -106,12 +122,12 @@ start value and length: it returns a valid segmentation `0 = s₀ < … < s_k = 
 `F0 + Σ (f(s_r, s_{r+1}) + penalty)` is at most that of every other segmentation of `0..n`.
 (`top` is any element above every cost — `inf` in the code.) -/
 theorem dp_optimal (f : Nat → Nat → κ) (pen top F0 : κ) (htop : ∀ x : κ, x ≤ top) (n : Nat) :
-    ∃ seg, segment false f F0 pen top n = some seg ∧ IsSeg n seg ∧
+    ∃ seg, Changepoints.segment false f F0 pen top n = some seg ∧ IsSeg n seg ∧
       ∀ seg', IsSeg n seg' → segCost f pen F0 seg ≤ segCost f pen F0 seg' := by
   obtain ⟨s, e, h, l⟩ := dpInv_iter f pen top F0 htop n (init F0) (dpInv_init f pen F0)
   have hn : n < s.F.length := by rw [l]; simp [init]
   obtain ⟨a1, a2⟩ := h.attain n hn
-  refine ⟨lget s.P n ++ [n], by simp [segment, e], a1, ?_⟩
+  refine ⟨lget s.P n ++ [n], by simp [Changepoints.segment, e], a1, ?_⟩
   intro seg' hseg'
   rw [a2]
   exact h.lower n hn seg' hseg'
@@ -124,7 +140,7 @@ and returns a segmentation of minimum cost. -/
 theorem pelt_sound_of_superadditive (f : Nat → Nat → κ) (pen top F0 : κ) (hpen : 0 ≤ pen)
     (n : Nat) (hsup : ∀ i j t, i < j → j < t → t ≤ n → f i j + f j t ≤ f i t)
     (hfin : ∀ t, 0 < t → t ≤ n → F0 + f 0 t + pen < top) :
-    ∃ seg, segment true f F0 pen top n = some seg ∧ IsSeg n seg ∧
+    ∃ seg, Changepoints.segment true f F0 pen top n = some seg ∧ IsSeg n seg ∧
       ∀ seg', IsSeg n seg' → segCost f pen F0 seg ≤ segCost f pen F0 seg' :=
   pelt_optimal f pen top F0 hpen n hsup hfin
 
@@ -142,7 +158,7 @@ and every length.  (`plainLoss` is `poissonLoss` with `min_counts = min_offset =
 theorem pelt_optimal_unconstrained (lg : α → α) (hlg : LogSum lg) (counts offs : List α)
     (hc : ∀ x ∈ counts, 0 < x) (ho : ∀ x ∈ offs, 0 < x) (hlen : counts.length = offs.length)
     (pen : α) (hpen : 0 ≤ pen) :
-    ∃ seg, segment true (plainLoss lg counts offs) ((-pen : α) : WithTop α) ((pen : α) : WithTop α) ⊤
+    ∃ seg, Changepoints.segment true (plainLoss lg counts offs) ((-pen : α) : WithTop α) ((pen : α) : WithTop α) ⊤
         counts.length = some seg ∧ IsSeg counts.length seg ∧
       ∀ seg', IsSeg counts.length seg' →
         segCost (plainLoss lg counts offs) ((pen : α) : WithTop α) ((-pen : α) : WithTop α) seg ≤
@@ -152,6 +168,19 @@ theorem pelt_optimal_unconstrained (lg : α → α) (hlg : LogSum lg) (counts of
     (fun t h0 ht => plainLoss_lt_top lg counts offs hc ho hlen pen t h0 ht)
 
 end Poisson
+
+/-- **With the real logarithm** (no hypothesis left on `log`): for positive real counts and offsets, no minimum
+constraints and penalty `≥ 0`, the model of `_poisson_changepoints` returns a segmentation minimising the
+penalised Poisson deviance among all segmentations. -/
+theorem pelt_optimal_unconstrained_real (counts offs : List ℝ)
+    (hc : ∀ x ∈ counts, 0 < x) (ho : ∀ x ∈ offs, 0 < x) (hlen : counts.length = offs.length)
+    (pen : ℝ) (hpen : 0 ≤ pen) :
+    ∃ seg, Changepoints.segment true (plainLoss Real.log counts offs) ((-pen : ℝ) : WithTop ℝ) ((pen : ℝ) : WithTop ℝ) ⊤
+        counts.length = some seg ∧ IsSeg counts.length seg ∧
+      ∀ seg', IsSeg counts.length seg' →
+        segCost (plainLoss Real.log counts offs) ((pen : ℝ) : WithTop ℝ) ((-pen : ℝ) : WithTop ℝ) seg ≤
+        segCost (plainLoss Real.log counts offs) ((pen : ℝ) : WithTop ℝ) ((-pen : ℝ) : WithTop ℝ) seg' :=
+  pelt_optimal_unconstrained Real.log logSum_real counts offs hc ho hlen pen hpen
 
 /-! ### Finding F6 on the model -/
 
@@ -173,8 +202,8 @@ code returns `[0,4]` while the un-pruned recursion returns `[0,2,4]`, which is s
 candidate 2 is infeasible for `j = 3` (cost `∞`), is popped, and is missing at `j = 4` where it is the
 optimum. (`log` replaced by its 6-decimal values; the real code returns `[0,4]` too — checked by the harness.) -/
 theorem pelt_counterexample :
-    segment true witnessLoss 0 0 ⊤ 4 = some [0, 4] ∧
-    segment false witnessLoss 0 0 ⊤ 4 = some [0, 2, 4] ∧
+    Changepoints.segment true witnessLoss 0 0 ⊤ 4 = some [0, 4] ∧
+    Changepoints.segment false witnessLoss 0 0 ⊤ 4 = some [0, 2, 4] ∧
     segCost witnessLoss 0 0 [0, 2, 4] < segCost witnessLoss 0 0 [0, 4] := by
   decide +kernel
 
@@ -189,6 +218,10 @@ theorem witness_not_superadditive :
 example : fixedPre ([1, 0, 3, 2] : List Rat) 3 = true := by decide +kernel
 
 example : fixedChangepoints (fun n : Nat => (n : Rat)) [1, 0, 3, 2] 3 = [0, 2, 3, 4] := by
+  decide +kernel
+
+/-- equal masses are split equally (the case finding F13 broke before fix 412a87a) -/
+example : fixedChangepoints (fun n : Nat => (n : Rat)) [1, 1, 1, 1, 1, 1] 6 = [0, 1, 2, 3, 4, 5, 6] := by
   decide +kernel
 
 example : IsSeg 4 [0, 2, 4] :=
